@@ -449,6 +449,7 @@ func (s *scope) createInstance(descriptor *Descriptor) (any, error) {
 		}
 
 		s.setInstance(descriptor, key, instance)
+		s.shareWithAliases(descriptor, instance)
 		return instance, nil
 	}
 
@@ -605,7 +606,33 @@ func (s *scope) createInstance(descriptor *Descriptor) (any, error) {
 	}
 
 	s.setInstance(descriptor, key, instance)
+	s.shareWithAliases(descriptor, instance)
 	return instance, nil
+}
+
+// shareWithAliases makes an instance created for one interface alias (godi.As) the
+// cached instance of the other aliases of the same registration, so the constructor
+// runs once per singleton or scope whatever interface is requested first. The
+// instance is already tracked for disposal by the alias that created it.
+func (s *scope) shareWithAliases(descriptor *Descriptor, instance any) {
+	for _, alias := range descriptor.aliases {
+		if alias == descriptor {
+			continue
+		}
+
+		key := instanceKey{Type: alias.Type, Key: alias.Key, Group: alias.Group}
+		switch alias.Lifetime {
+		case Singleton:
+			s.rootProvider.singletons.Store(key, instance)
+			s.rootProvider.singletonKeysMu.Lock()
+			s.rootProvider.singletonKeys = append(s.rootProvider.singletonKeys, key)
+			s.rootProvider.singletonKeysMu.Unlock()
+		case Scoped:
+			s.instancesMu.Lock()
+			s.instances[key] = instance
+			s.instancesMu.Unlock()
+		}
+	}
 }
 
 // FromContext retrieves a Scope from the context.
